@@ -192,3 +192,16 @@ Lemma main_stacked_dask_chunks_independent : forall (T C : Type) (OP : ops T) (i
   Forall2 tiling defs chs ->
   stacked_rows_dask OP inv rs cs 0 defs chs = stacked_rows OP inv rs cs 0 defs.
 Proof. intros. apply stacked_rows_dask_eq. assumption. Qed.
+
+Lemma main_split_concat_routes : forall g a b k, wf_g g -> 0 <= a -> a < k -> k < b -> b <= gheight g ->
+  let win := gen_area_getitem RO g (rows_key a b) in
+  (exists m, gen_concatenate_area_defs RO (gen_area_getitem RO g (rows_key a k))
+                                          (gen_area_getitem RO win (rows_key (k - a) (b - a))) 0 = Some m /\
+             g_area m = g_area win /\ g_crs m = g_crs g) /\
+  (exists m, gen_concatenate_area_defs RO (gen_area_getitem RO win (rows_key 0 (k - a)))
+                                          (gen_area_getitem RO g (rows_key k b)) 0 = Some m /\
+             g_area m = g_area win /\ g_crs m = g_crs g).
+Proof.
+  intros g a b k W H1 H2 H3 H4 win. subst win. rewrite !gen_concat_eq, !gen_getitem_eq.
+  apply (split_concat_routes g a b k W H1 H2 H3 H4).
+Qed.
